@@ -581,10 +581,18 @@ def pickLatest (v : Nat) (rows : List Spec) : Option Spec :=
       | some a => if a.version ≤ r.version then some r else some a
     else acc) none
 
+def sameKey (r r' : Spec) : Bool := r.opcode == r'.opcode && r.sub == r'.sub
+
 /-- OpsByName[v][name]: the newest row of that name registered at a version ≤ v, last listed; table 0 is the alias of
-    table 1 and holds copies whose Version field is 0 -/
+    table 1 and holds copies whose Version field is 0. An op keeps its opcode bytes across versions and no two ops share
+    them (checked by the fact extractor on every run), so the rows of one name are the rows of one (opcode, sub-opcode). -/
 def byName (env : Env) (v : Nat) (name : String) : Option Spec :=
-  (pickLatest v (env.rows.filter (fun r => r.name = name))).map (fun s => if v = 0 then { s with version := 0 } else s)
+  match env.rows.find? (fun r => r.name = name) with
+  | none => none
+  | some r0 =>
+    match pickLatest v (env.rows.filter (fun r => sameKey r0 r)) with
+    | none => none
+    | some s => if s.name = name then some (if v = 0 then { s with version := 0 } else s) else none
 
 def groupOf (env : Env) (key : String) : Option Group := findGroup env.groups key
 
